@@ -97,7 +97,10 @@ def ref_value(v: dict[str, Any], val: Any, env: dict[str, Any], w: "World") -> b
             raise HarnessError("var before capture at match time: generator bug")
         cv = env[v["name"]]
         if is_node(cv):
-            return content_equal(cv, val, w)
+            ce = content_equal(cv, val, w)
+            if ce and cv is not val and not (cv == val):
+                w.stats.probes["var_content_equal_but_not_eq"] += 1
+            return ce
         return bool(cv == val)
     if t == "seq":
         if not isinstance(val, tuple):
@@ -247,6 +250,8 @@ class World:
             self.matchers[op["out"]] = {"m": m, "ast": op["ast"], "text": text, "cached": msg == "Cached matcher"}
             if msg == "Cached matcher":
                 self.stats.probes["compiled_from_cache"] += 1
+            if op.get("respaced"):
+                self.stats.probes["near_duplicate_text_compiled"] += 1
             return "ok"
         raise HarnessError(how)
 
@@ -433,6 +438,8 @@ class Gen:
         choice = r.random()
         if "\n" in s or '"' in s:
             return r.choice(REGEX_POOL)
+        if (" " in s or "\t" in s) and re.escape(s.replace(" ", "").replace("\t", "")) == s.replace(" ", "").replace("\t", "") and choice < 0.6:
+            return s + "$"  # whitespace inside the quotes is significant; keep it unescaped
         if choice < 0.35:
             return safe
         if choice < 0.5:
@@ -448,7 +455,7 @@ class Gen:
     def gen_value(self, val: Any, depth: int, caps: list[str]) -> dict[str, Any]:
         """A value spec aimed at (but not guaranteed to match) the object `val`."""
         r = self.r("pval")
-        if caps and r.random() < 0.18:
+        if caps and r.random() < (0.3 if is_node(val) else 0.15):
             return {"t": "var", "name": r.choice(caps)}
         if is_node(val):
             if depth <= 0 or r.random() < 0.15:
@@ -544,6 +551,23 @@ class Gen:
                 tw = RW.spec_of(w.nodes[f"t{i}"])
                 tw = self.rwg.mutate(tw) if r.random() < 0.6 else tw
                 do({"op": "build", "spec": tw, "out": f"t{i}b"})
+        # mirror trees: content-equal subtrees with different origins at sibling positions ($var semantics)
+        for i in range(r.choice([0, 1, 1, 2])):
+            base = RW.spec_of(r.choice(RW.walk(w.nodes[r.choice(list(w.nodes))])[:8]))
+            if RW.spec_nodes(base) > 6:
+                base = self.rwg.spec(0)
+                if "ref" in base:
+                    continue
+            others = [k for k in U.ORIGIN_KEYS if k != base.get("o")]
+            twin = _reorigin(base, r.choice(others))
+            near = self.rwg.mutate(base)
+            if r.random() < 0.5:
+                spec = {"c": "Pair", "p": {}, "ch": {"left": base, "lhs": twin, "right": near}, "o": "no"}
+            else:
+                items = [base, twin, near]
+                r.shuffle(items)
+                spec = {"c": "Seq", "p": {}, "ch": {"items": items}, "o": "no"}
+            do({"op": "build", "spec": spec, "out": f"mirror{i}"})
         ws = self.r("ws")
         nm = 0
         pending: list[str] = []
@@ -566,6 +590,16 @@ class Gen:
                 nm += 1
                 text = mi["text"] if r.random() < 0.5 else render(mi["ast"], ws)
                 do({"op": "compile", "how": "from_pattern", "text": text, "ast": mi["ast"], "out": f"m{nm}"})
+            elif kind == "respace":
+                # a near-duplicate text: same pattern, whitespace changed INSIDE a quoted regex (significant there)
+                cands = [n for n, mi in w.matchers.items() if _ws_regexes(mi["ast"])]
+                if not cands:
+                    continue
+                mi = w.matchers[r.choice(cands)]
+                ast = _respace(mi["ast"], r)
+                nm += 1
+                do({"op": "compile", "how": "from_pattern", "text": render(ast, ws), "ast": ast, "out": f"m{nm}", "respaced": True})
+                pending.insert(0, f"m{nm}")
             elif kind == "multi":
                 rules = []
                 for j in range(r.choice([1, 2, 3, 4])):
@@ -589,11 +623,72 @@ class Gen:
         do({"op": "recheck"})
 
 
+def _regex_nodes(ast: dict[str, Any]) -> list[dict[str, Any]]:
+    out: list[dict[str, Any]] = []
+
+    def val(v: dict[str, Any]) -> None:
+        if v["t"] == "re":
+            out.append(v)
+        elif v["t"] == "node":
+            node(v["p"])
+        elif v["t"] == "seq":
+            for e in v["elems"]:
+                val(e["v"])
+
+    def node(n: dict[str, Any]) -> None:
+        for _f, fs in n["fields"]:
+            if fs["k"] == "val":
+                val(fs["v"])
+
+    node(ast)
+    return out
+
+
+def _ws_regexes(ast: dict[str, Any]) -> list[dict[str, Any]]:
+    return [v for v in _regex_nodes(ast) if re.search(r"(?<!\\)[ \t]", v["src"])]
+
+
+def _respace(ast: dict[str, Any], r: Any) -> dict[str, Any]:
+    import copy
+
+    a = copy.deepcopy(ast)
+    v = r.choice(_ws_regexes(a))
+    src = v["src"]
+    m = re.search(r"(?<!\\)[ \t]+", src)
+    run = m.group(0)
+    new = r.choice([run + " ", "\t", " "]) if run != " " else r.choice(["  ", "\t"])
+    if new == run:
+        new = run + " "
+    v["src"] = src[: m.start()] + new + src[m.end() :]
+    return a
+
+
+def _reorigin(spec: Any, okey: str) -> Any:
+    import copy
+
+    s = copy.deepcopy(spec)
+
+    def rec(x: Any) -> None:
+        if not x or "ref" in x:
+            return
+        x["o"] = okey
+        for v in x.get("ch", {}).values():
+            if isinstance(v, list):
+                for y in v:
+                    rec(y)
+            else:
+                rec(v)
+
+    rec(s)
+    return s
+
+
 def make_config(rseed: int, prop: str, tier: str, faults: bool) -> dict[str, Any]:
     rng = Rng(rseed)
     r = rng.s("config")
     mixes = [
-        ["compile", "match", "match", "recompile", "multi", "multimatch"],
+        ["compile", "match", "match", "recompile", "respace", "multi", "multimatch"],
+        ["compile", "respace", "match", "match"],
         ["compile", "compile", "match", "multimatch", "multi"],
         ["compile", "match", "match", "match"],
         ["compile", "multi", "multimatch", "multimatch", "match"],
